@@ -54,11 +54,18 @@ pub fn num_workers() -> usize {
 
 thread_local! {
     static IN_SUBJECT: Cell<bool> = const { Cell::new(false) };
+    static LAST_PANIC_LOC: std::cell::RefCell<String> = const { std::cell::RefCell::new(String::new()) };
 }
+
+/// Marker of a panic raised by harness code (not by the subject) inside a guarded call: such
+/// an observation is a machinery failure, never a verdict (see `finish`).
+pub const HARNESS_PANIC: &str = "HARNESS-PANIC";
 
 pub fn install_panic_hook() {
     let default = std::panic::take_hook();
     std::panic::set_hook(Box::new(move |info| {
+        let loc = info.location().map(|l| format!("{}:{}", l.file(), l.line())).unwrap_or_default();
+        LAST_PANIC_LOC.with(|c| *c.borrow_mut() = loc);
         if !IN_SUBJECT.with(|f| f.get()) {
             default(info);
         }
@@ -68,15 +75,23 @@ pub fn install_panic_hook() {
 /// Run a call into the subject; a panic becomes `Err(message)`.
 pub fn guarded<R>(f: impl FnOnce() -> R) -> Result<R, String> {
     let prev = IN_SUBJECT.with(|c| c.replace(true));
+    LAST_PANIC_LOC.with(|c| c.borrow_mut().clear());
     let r = catch_unwind(AssertUnwindSafe(f));
     IN_SUBJECT.with(|c| c.set(prev));
     r.map_err(|e| {
-        if let Some(s) = e.downcast_ref::<&str>() {
+        let msg = if let Some(s) = e.downcast_ref::<&str>() {
             format!("panic: {}", s)
         } else if let Some(s) = e.downcast_ref::<String>() {
             format!("panic: {}", s)
         } else {
             "panic".to_string()
+        };
+        // the harness is compiled from relative paths (src/..), the subject from an absolute one
+        let loc = LAST_PANIC_LOC.with(|c| c.borrow().clone());
+        if loc.starts_with("src/") {
+            format!("{} at {}: {}", HARNESS_PANIC, loc, msg)
+        } else {
+            msg
         }
     })
 }
@@ -155,6 +170,8 @@ impl Local {
         }
     }
     pub fn violation(&mut self, key: String, sig: &str, case: String, expected: String, observed: String) {
+        // a case observed in the checked-profile binary is replayed there
+        let (key, case) = if profile() == "checked" && !case.contains("prof=") { (format!("{}|checked", key), format!("{};prof=checked", case)) } else { (key, case) };
         self.viol_count += 1;
         self.viols.push(Violation { key, sig: sig.to_string(), case, expected, observed });
         if self.viols.len() > 256 {
@@ -435,6 +452,16 @@ pub fn load_findings() -> Result<Vec<Finding>, String> {
 /// lines and return the process exit code.
 pub fn finish(run: &Run) -> i32 {
     let root = verif_root();
+    {
+        // an observation produced by a panic of harness code is not a verdict on the subject
+        let mut v = run.viols.lock().unwrap();
+        let before = v.len();
+        let first = v.iter().find(|x| x.observed.contains(HARNESS_PANIC) || x.expected.contains(HARNESS_PANIC)).map(|x| format!("{} [{}]", x.observed, x.case));
+        v.retain(|x| !x.observed.contains(HARNESS_PANIC) && !x.expected.contains(HARNESS_PANIC));
+        if let Some(f) = first {
+            run.machinery(format!("{} observation(s) came from a panic inside the harness, not the subject: {}", before - v.len(), f));
+        }
+    }
     let machinery = run.machinery_error.lock().unwrap().clone();
     if let Some(m) = &machinery {
         eprintln!("MACHINERY-ERROR property={} {}", run.prop, m);
@@ -729,6 +756,10 @@ pub fn run_to_json(run: &Run) -> J {
 /// Run `lsx sub run <prop> <tier> [args]` in the checked binary and merge its sections and
 /// violations into `run`. Returns the child's JSON (for digest joins).
 pub fn child_run(run: &Run, args: &[&str]) -> Option<J> {
+    if profile() == "checked" {
+        // this already is the second configuration
+        return None;
+    }
     child_run_with(run, "LSX_CHECKED", "checked", &["sub", "run", &run.prop.clone(), run.tier.name()], args)
 }
 
